@@ -250,6 +250,9 @@ def body_walk(func):
             rec(c)
 
     for s in func.body:
+        if isinstance(s, (ast.FunctionDef, ast.AsyncFunctionDef, ast.ClassDef)):
+            out.append(s)  # nested definition: visible as a statement, its body belongs to its own unit
+            continue
         rec(s)
     return out
 
